@@ -1813,10 +1813,10 @@ BTree_rangeSearch(BTree *self, PyObject *args, PyObject *kw, char type)
         goto empty_and_decref_buckets;      /* definitely empty */
 
     /* The buckets differ, or they're the same and the offsets show a non-
-    * empty range.
+    * empty range.  An exclusive unbounded end moves an endpoint too, so the
+    * check is needed even when only one bound (or none) was supplied.
     */
-    if (min != Py_None && max != Py_None && /* both args user-supplied */
-        lowbucket != highbucket)   /* and different buckets */
+    if (lowbucket != highbucket)   /* different buckets */
     {
         KEY_TYPE first;
         KEY_TYPE last;
